@@ -24,7 +24,7 @@ use std::mem::MaybeUninit;
 use std::os::unix::io::AsRawFd;
 use std::ptr;
 use std::sync::atomic::{AtomicBool, Ordering};
-use std::sync::{Arc, Mutex};
+use std::sync::{Arc, Mutex, PoisonError};
 
 use libc::{self, c_int};
 
@@ -65,7 +65,12 @@ impl Drop for DeliveryState {
     fn drop(&mut self) {
         #[cfg(feature = "verif-hooks")]
         signal_hook_registry::verif::point(signal_hook_registry::verif::site::IT_DROP_BEGIN, 0, 0);
-        let lock = self.registered_signal_ids.lock().unwrap();
+        // A panic inside add_signal (forbidden or out of range signal) poisons the mutex, but the
+        // table is only written after a successful registration, so it is consistent anyway.
+        let lock = self
+            .registered_signal_ids
+            .lock()
+            .unwrap_or_else(PoisonError::into_inner);
         for id in lock.iter().filter_map(|s| *s) {
             crate::low_level::unregister(id);
         }
@@ -196,7 +201,12 @@ impl Handle {
     /// * If the relevant [`Exfiltrator`] does not support this particular signal. The default
     ///   [`SignalOnly`] one supports all signals.
     pub fn add_signal(&self, signal: c_int) -> Result<(), Error> {
-        let mut lock = self.delivery_state.registered_signal_ids.lock().unwrap();
+        // See the Drop of DeliveryState about the poisoning.
+        let mut lock = self
+            .delivery_state
+            .registered_signal_ids
+            .lock()
+            .unwrap_or_else(PoisonError::into_inner);
         #[cfg(feature = "verif-hooks")]
         signal_hook_registry::verif::point(signal_hook_registry::verif::site::IT_ADD_LOCKED, signal as usize, 0);
         // Already registered, ignoring
